@@ -436,6 +436,23 @@ theorem world_list_iff (w : World) (hroot : w.isDir [] = true) (names : List Nam
     · simp [hf, hr]
   · simp [hf]
 
+/-- ★ **Symbolic links are followed hop by hop, each target resolved in the directory of the link that
+    is being followed** (not of the first link of the chain): if the look-up of `x/n` ends at a link
+    with the relative target `tgt`, then `x/n` exists iff `x/tgt` does, with one hop less to spend;
+    an absolute target replaces the path; after 8 look-ups the answer is no. -/
+theorem world_follow_hop (w : World) (fuel : Nat) (x : Path) (n : Name) (hn : '/' ∉ n) (key : List Name)
+    (tgt : Path) (hg : w.get (x ++ '/' :: n) = some key) (hk : w.kindAt key = some (NodeKind.link tgt)) :
+    w.follow (fuel + 1) (x ++ '/' :: n)
+      = w.follow fuel (if tgt.head? = some '/' then tgt else x ++ '/' :: tgt) := by
+  rw [follow_succ, hg]
+  simp only [hk]
+  by_cases ht : tgt.head? = some '/'
+  · have : retarget (x ++ '/' :: n) tgt = tgt := by simp [retarget, ht]
+    rw [this, if_pos ht]
+  · rw [retarget_relative x n hn tgt ht, if_neg ht]
+
+theorem world_follow_bound (w : World) (abs : Path) : w.follow 0 abs = false := rfl
+
 /-! ### non-vacuity: a concrete system and matcher meeting every hypothesis, with a two-result expansion -/
 
 /-- three files `a`, `b`, `.h` in the working directory -/
@@ -554,6 +571,28 @@ def w₀ (m : Nat) : World where
     ([['t'], ['p', 'r', 'i', 'v']], NodeKind.dir m), ([['t'], ['p', 'r', 'i', 'v'], ['a']], NodeKind.file),
     ([['t'], ['p', 'u', 'b']], NodeKind.dir 0o755), ([['t'], ['p', 'u', 'b'], ['a']], NodeKind.file)]
   fdFree := true
+
+/-- `/t/d/a`, `/t/d/k -> a`, `/t/e/l -> ../d/k` (exists), `/t/f/a`, `/t/g/k -> a` (dangling),
+    `/t/f/l -> ../g/k` (dangling): the second hop must be resolved in `d` resp. `g`, not in `e` resp. `f` -/
+def wLinks : World where
+  entries := [([], NodeKind.dir 0o755), ([['t']], NodeKind.dir 0o755),
+    ([['t'], ['d']], NodeKind.dir 0o755), ([['t'], ['d'], ['a']], NodeKind.file),
+    ([['t'], ['d'], ['k']], NodeKind.link ['a']),
+    ([['t'], ['e']], NodeKind.dir 0o755), ([['t'], ['e'], ['l']], NodeKind.link ['.', '.', '/', 'd', '/', 'k']),
+    ([['t'], ['f']], NodeKind.dir 0o755), ([['t'], ['f'], ['a']], NodeKind.file),
+    ([['t'], ['g']], NodeKind.dir 0o755), ([['t'], ['g'], ['k']], NodeKind.link ['a']),
+    ([['t'], ['f'], ['l']], NodeKind.link ['.', '.', '/', 'g', '/', 'k'])]
+  fdFree := true
+
+/-- the unquoted word `*/l` -/
+def starSlashL : List AttrChar :=
+  ['*', '/', 'l'].map (fun c => { value := c, origin := Origin.literal, isQuoted := false, isQuoting := false })
+
+example : (fsOfWorld wLinks).exist ['e', '/', 'l'] = true ∧ (fsOfWorld wLinks).exist ['f', '/', 'l'] = false := by
+  decide
+example : searchField m₀ (fsOfWorld wLinks) starSlashL = [['e', '/', 'l']] := by decide
+example : wLinks.get ['/', 't', '/', 'e', '/', 'l'] = some [['t'], ['e'], ['l']]
+    ∧ wLinks.kindAt [['t'], ['e'], ['l']] = some (NodeKind.link ['.', '.', '/', 'd', '/', 'k']) := by decide
 
 /-- the unquoted word `*/a` -/
 def starSlashA : List AttrChar :=
